@@ -100,3 +100,48 @@ Proof.
     rewrite ?dpc_unf; cbv beta iota zeta delta [Nat.eqb Nat.sub swap3 get3 set3 fst snd solve2 solve3 first_neg]; rops;
     intro H; exact H.
 Qed.
+
+(* when no coordinate is clamped (inside = true) the answer is the orthogonal projection: nearest point *)
+Lemma dpc_nearest_inside : forall p T al0 d2 al,
+  dist_point_triangle Rops p T al0 = DOk d2 al true ->
+  forall a b c, 0 <= a -> 0 <= b -> 0 <= c -> a + b + c = 1 ->
+  d2 <= vnorm2 Rops (vsub Rops p (recon Rops T (a, b, c))).
+Proof.
+  intros [[px py] pz] [[[[ax ay] az] [[bx by_] bz]] [[cx cy] cz]] [[x y] z] d2 al H a b c Ha Hb Hc Hs.
+  unfold dist_point_triangle in H; step H.
+  destruct (Reqb _ _) eqn:Ed in H; [discriminate H|]. apply Reqb_false in Ed.
+  match type of H with context [Rltb (1 - ?u - ?v) 0] => set (r1 := u) in *; set (r2 := v) in * end.
+  brk H; try step H;
+  try match type of H with context [Rltb (1 - ?u) 0] => set (t := u) in * end;
+  brk H; try step H; try discriminate H.
+  inversion H; subst d2 al; clear H.
+  set (a00 := vdot Rops (vsub Rops (bx, by_, bz) (ax, ay, az)) (vsub Rops (bx, by_, bz) (ax, ay, az))) in *.
+  set (a10 := vdot Rops (vsub Rops (bx, by_, bz) (ax, ay, az)) (vsub Rops (cx, cy, cz) (ax, ay, az))) in *.
+  set (a11 := vdot Rops (vsub Rops (cx, cy, cz) (ax, ay, az)) (vsub Rops (cx, cy, cz) (ax, ay, az))) in *.
+  set (b0 := vdot Rops (vsub Rops (px, py, pz) (ax, ay, az)) (vsub Rops (bx, by_, bz) (ax, ay, az))) in *.
+  set (b1 := vdot Rops (vsub Rops (px, py, pz) (ax, ay, az)) (vsub Rops (cx, cy, cz) (ax, ay, az))) in *.
+  assert (N1 : r1 * a00 + r2 * a10 = b0) by (unfold r1, r2; field; exact Ed).
+  assert (N2 : r1 * a10 + r2 * a11 = b1) by (unfold r1, r2; field; exact Ed).
+  clearbody r1 r2.
+  unfold a00, a10, a11, b0, b1 in N1, N2. clear a00 a10 a11 b0 b1 Ed.
+  revert N1 N2. coords. intros N1 N2.
+  replace a with (1 - b - c) by lra.
+  set (mx := px - ax - r1 * (bx - ax) - r2 * (cx - ax)).
+  set (my := py - ay - r1 * (by_ - ay) - r2 * (cy - ay)).
+  set (mz := pz - az - r1 * (bz - az) - r2 * (cz - az)).
+  set (nx := (r1 - b) * (bx - ax) + (r2 - c) * (cx - ax)).
+  set (ny := (r1 - b) * (by_ - ay) + (r2 - c) * (cy - ay)).
+  set (nz := (r1 - b) * (bz - az) + (r2 - c) * (cz - az)).
+  assert (M1 : mx * (bx - ax) + my * (by_ - ay) + mz * (bz - az) = 0) by (unfold mx, my, mz; lra).
+  assert (M2 : mx * (cx - ax) + my * (cy - ay) + mz * (cz - az) = 0) by (unfold mx, my, mz; lra).
+  match goal with |- ?L <= ?R =>
+    replace L with (mx * mx + my * my + mz * mz) by (unfold mx, my, mz; ring);
+    replace R with ((mx + nx) * (mx + nx) + (my + ny) * (my + ny) + (mz + nz) * (mz + nz)) by (unfold mx, my, mz, nx, ny, nz; ring)
+  end.
+  assert (C : mx * nx + my * ny + mz * nz = 0).
+  { unfold nx, ny, nz.
+    replace (mx * ((r1 - b) * (bx - ax) + (r2 - c) * (cx - ax)) + my * ((r1 - b) * (by_ - ay) + (r2 - c) * (cy - ay)) + mz * ((r1 - b) * (bz - az) + (r2 - c) * (cz - az)))
+      with ((r1 - b) * (mx * (bx - ax) + my * (by_ - ay) + mz * (bz - az)) + (r2 - c) * (mx * (cx - ax) + my * (cy - ay) + mz * (cz - az))) by ring.
+    rewrite M1, M2. ring. }
+  nra.
+Qed.
